@@ -296,22 +296,24 @@ Definition cgrain_range (f : vfile) (sp : sparse) (sector : Z) : Z * Z :=
 Definition fuel_for (count : Z) : nat := S (Z.to_nat count).
 
 (* ---------- RawDisk ---------- *)
-Definition raw_read_sectors (soff sector count : Z) : list seg :=
-  [SFile ((sector - soff) * SECTOR) (count * SECTOR)].
+(* [start]: the extent's start sector inside its file (the last number of a FLAT/VMFS extent line;
+   honoured since fixes/C10-vmdk-flat-start-sector.diff, 0 for a bare file) *)
+Definition raw_read_sectors (soff start sector count : Z) : list seg :=
+  [SFile ((sector - soff + start) * SECTOR) (count * SECTOR)].
 
 (* ---------- VMDK: a list of extents ---------- *)
 Inductive extent :=
 | XSparse (f : vfile) (sp : sparse) (has_parent : bool)
-| XRaw (size : Z).                                            (* RawDisk.size *)
+| XRaw (size start : Z).                                      (* RawDisk.size, RawDisk.start_sector *)
 
 Definition x_size (x : extent) : Z :=
-  match x with XSparse _ sp _ => sp_capacity sp * SECTOR | XRaw size => size end.
+  match x with XSparse _ sp _ => sp_capacity sp * SECTOR | XRaw size _ => size end.
 Definition x_sectors (x : extent) : Z :=
-  match x with XSparse _ sp _ => sp_capacity sp | XRaw size => size / SECTOR end.
+  match x with XSparse _ sp _ => sp_capacity sp | XRaw size _ => size / SECTOR end.
 Definition x_read (x : extent) (soff : Z) (sector count : Z) : res (list seg) :=
   match x with
   | XSparse f sp hp => sparse_read_sectors f sp soff hp (fuel_for count) sector count
-  | XRaw _ => Ok (raw_read_sectors soff sector count)
+  | XRaw _ start => Ok (raw_read_sectors soff start sector count)
   end.
 
 (* VMDK.__init__, the bookkeeping loop: returns (_disk_offsets, [(disk, sector_offset)], size, sector_count) *)
